@@ -731,7 +731,7 @@ def run(ctx):
         'the monitors of the proved clauses run on every history. (3) 2-4 managed threads on one real bucket under the '
         'cooperative scheduler (lock acquisition is a yield point, virtual clock advanced by the programs): every '
         'schedule of 5 small program sets up to a budget, random/PCT schedules of random programs; clock readings '
-        'reaching the tracker must be in lock order, monitors in lock order, lock-order linearisation replayed by the model. A history is distinct/non-trivial by its full model '
+        'reaching the tracker must be in lock order, monitors in lock order, lock-order linearisation replayed by the model. (4) wiring: real TransferManager transfers (uploads from path / seekable / non-seekable, single and multipart; downloads to a path and to a stream, single and ranged) with max_bandwidth set, against the fake S3 emulating botocore\'s life cycle (payload read by before-call handlers, signer reads, send; body optionally inside AwsChunkedWrapper) under a virtual clock: nothing charged / no sleep while nothing is on the wire, everything sent or received charged. A history is distinct/non-trivial by its full model '
         'command line and counts only if it contains at least one refusal.')
     bw = impl()
     near_ties = 0
@@ -794,6 +794,9 @@ def run(ctx):
         # concurrent tie: managed threads on one real bucket, lock acquisition is a yield point
         from harness.props import c13conc
         c13conc.run(ctx)
+        # (4) wiring: one shared bucket per manager, bodies and streams wrapped, limiting on only while on the wire
+        from harness.props import c13wire
+        c13wire.run(ctx)
         ctx.cov.setdefault('near_tie_histories_cut', 0)
         try:        # for the record only; the proof is tied to the source through gen/Tables.v
             ctx.cov['source_alpha'] = str(Fraction(bw.BandwidthRateTracker()._alpha).limit_denominator(10 ** 6))
@@ -844,6 +847,9 @@ def replay(ctx, data):
         r = oracle_case(case)
         print('oracle:', r)
         return r is not None
+    if isinstance(case, dict) and 'life' in case:
+        from harness.props import c13wire
+        return c13wire.replay(ctx, data)
     if isinstance(case, dict) and case.get('kind') == 'sched':
         from harness.props import c13conc
         return c13conc.replay_case(case, use_model=data.get('kind') == 'correspondence')
